@@ -10,15 +10,15 @@ CHECKS = {
          "Trusted: channel.Verify/Sign of the sim backend (their binding to one state is C15's subject); explorer branching uses channel.RestoreStateMachine on harness-made snapshots; bounded depth.",
          "DESIGN.md §5 C01"),
  "C02": ("exploration", "runtime monitoring: differential test of Update/CheckUpdate/Init against an independent reference predicate over single-condition mutants",
-         "For generated (parameters, reachable current state) pairs every single-condition violation of the successor rules and valid successors are offered to the real machine; nil/error results are compared with a reference predicate written from the property statement; refused candidates must not be staged and nothing may panic.",
+         "For generated (parameters, reachable current state) pairs every single-condition violation of the successor rules and valid successors are offered to the real machine; nil/error results are compared with a reference predicate written from the property statement; refused candidates must not be staged and nothing may panic. Candidates are also offered after SetRegistering/SetRegistered/SetWithdrawing and on machines restored with phase Acting (the rules concern the current state, not the phase).",
          "Trusted: the reference predicate (harness/internal/refmodel/successor.go); abstains where the statement is silent (backend list, version overflow).",
          "DESIGN.md §5 C02"),
  "C09": ("exploration", "runtime monitoring: state-machine explorer with a reference phase automaton compared step by step",
-         "Same explorer as C01; every call's outcome, target phase, staged and current transaction and returned signature are compared with a reference automaton built from the method documentation; erroring calls must leave phase/staging/current untouched (deep snapshots incl. in-place mutation detection). The evidence lists the phase x operation matrix with hit counts, fresh and after failures.",
+         "Same explorer as C01; every call's outcome, target phase, staged and current transaction and returned signature are compared with a reference automaton built from the method documentation; erroring calls must leave phase/staging/current untouched (deep snapshots incl. in-place mutation detection). Random walks continue on Clone() of the machine now and then, and ActionMachine (AddAction/Init/Update with an action app that refuses marked actions) is walked against a reference model of its own. The evidence lists the phase x operation matrix with hit counts, fresh and after failures.",
          "Trusted: the automaton table (DESIGN.md appendix D). Bounded depth / suffix length; signature indices below N as the property states.",
          "DESIGN.md §5 C09, appendix D"),
  "C13": ("exploration", "runtime monitoring: decoders run in address-space-limited child processes under a panic/fatal-error monitor and a limit oracle over mutated and constructed inputs",
-         "67 decoders are fed random bytes, every truncation / bit flip / interesting-value splice of valid encodings, structural protobuf mutations and constructive over-limit encodings; a recovered panic, a dead child (attributed through a last-case file) or an accepted over-limit value is a violation.",
+         "67 decoders are fed random bytes, every truncation / bit flip / interesting-value splice of valid encodings, structural protobuf mutations and constructive over-limit encodings; a recovered panic, a dead child (attributed through a last-case file) or an accepted over-limit value is a violation; every 2048 calls a canary takes the app registry's write lock (a decoder that returned must not leave it locked).",
          "Trusted: recover() and the parent's attribution of child deaths; inputs are generated, not exhaustive; wallet backends 0 (sim) and, when the harness build with extra backends succeeded, 1 and 2 are registered. Large-but-legal allocations are not violations.",
          "DESIGN.md §5 C13"),
  "C14": ("exploration", "runtime monitoring: generated values through the real codecs, oracle = structural comparison + byte comparison of re-encodings",
@@ -30,20 +30,20 @@ CHECKS = {
          "Trusted: the encoders (their faithfulness is C14's subject). Values that cannot be encoded are skipped.",
          "DESIGN.md §5 C15"),
  "C16": ("exploration", "runtime monitoring: envelope streams decoded through a chunking io.Reader under many partitions, compared with the contiguous decode",
-         "Streams of 1-5 envelopes per serializer are read through a reader that delivers the bytes in chunks (whole, 1-byte, every two-chunk split point, MSS-sized, random), a third of them through wire/net's ioConn.Recv; every envelope must decode to the same envelope as from the contiguous buffer.",
+         "Streams of 1-5 envelopes per serializer are read through a reader that delivers the bytes in chunks (whole, 1-byte, every two-chunk split point, MSS-sized, random), a third of them through wire/net's ioConn.Recv; every envelope must decode to the same envelope as from the contiguous buffer. Envelopes beyond the protobuf frame limit must be refused without touching the stream, a written frame must be readable back, and histories of 1-2 MiB run over one ioConn.",
          "Trusted: the chunking reader models an open connection as the statement specifies (no (0,nil), EOF only after the last byte). Split points are sampled for streams above 6000 bytes.",
          "DESIGN.md §5 C16"),
  "C17": ("exploration", "runtime monitoring: ID comparison across clones, round trips and single-field variants of generated parameter sets; constructor/decoder fed constraint violations",
-         "For generated parameter sets the ID must survive clone, reconstruction, native and protobuf round trips, change under each of 15 single-field variants (incl. a participant moved to, or present on, another wallet backend), be stamped on machine-created states, and NewParams/Params.Decode must refuse 12 kinds of constraint violations with an error.",
+         "For generated parameter sets the ID must survive clone, reconstruction, native and protobuf round trips, change under each of 15 single-field variants (incl. a participant moved to, or present on, another wallet backend), differ for nonces shifted by whole bytes, be stamped on machine-created states, and NewParams/Params.Decode must refuse 12 kinds of constraint violations with an error.",
          "Trusted: nothing beyond the generators; Aux is deliberately not asserted.",
          "DESIGN.md §5 C17"),
  "C19": ("exploration", "runtime monitoring: reflect/unsafe pointer-graph comparison and leaf scribbling on generated values and machines reached by random walks",
-         "For every cloneable type the clone must render equal, share no memory region with the original outside the documented shared set, and scribbling over every leaf of either side (and further machine operations on either machine) must not change the other side.",
+         "For every cloneable type the clone must render equal, share no memory region with the original outside the documented shared set, and scribbling over every leaf of either side (and further machine operations on either machine) must not change the other side. Values include emptied Locked slices that still own their array and FromSource applied to snapshots.",
          "Trusted: the pointer-graph walker (harness/internal/ptrgraph); the shared set is taken from the statement (App, Asset, accounts, logger).",
          "DESIGN.md §5 C19"),
  "C05": ("exploration", "runtime monitoring: the real watcher driven by a scripted RegisterSubscriber through exhaustive short and random long histories, compared step by step with a reference model; concurrent publisher/event histories judged by an interval oracle on a shared logical counter, also under the race detector",
          "Every operation (publish, adjudicator events with versions below/equal/above the published one, start/stop of sub-channels, refused and repeated stops) is followed by a barrier that makes its effects complete without sleeping; the Register calls received (parent version, per locked sub-channel the state version), the events on every EventStream and the results are compared exactly with the reference model of appendix B. In concurrent mode publishers of the parent and a sub-channel race with registered events (also the same registration on both channels at once): every Register call must carry versions between the newest one certainly consumed before the event and the newest one published before the call, must happen when a newer version had certainly been consumed, at most once, never without a newer version; relaying is exact; a data race inside watcher/local is a violation. A de-registration racing with an event must return and leave the oracle intact, and a client that reads its event stream late (11-20 events piled up) must still receive all of them in order.",
-         "Trusted: the reference model; single ledger and the statement's domain (locked sub-channels are watched or archived). The scripted Register always succeeds. The interval oracle's lower bound assumes a FIFO publish pipe whose capacity is read by reflection.",
+         "Trusted: the reference model; single ledger and the statement's domain (locked sub-channels are watched or archived). The scripted Register succeeds unless the history says it is refused (then the bookkeeping must not move; relaying that event is optional). The interval oracle's lower bound assumes a FIFO publish pipe whose capacity is read by reflection.",
          "DESIGN.md §5 C05, appendix B"),
  "C10": ("fault_enumeration", "runtime monitoring with fault injection: store frozen at every atomic write boundary of generated histories (memory: snapshot per boundary; LevelDB: re-run with later writes dropped, close, re-open), restored channel compared with live snapshots",
          "For every history of the persisting state machine and every write boundary, RestoreChannel and RestorePeer must yield exactly the live machine's state before or after the interrupted operation (after, once its last write is in), and every restored staging signature must verify for the restored staged state; untouched sibling channels in the same store must come back unchanged at every boundary. Peers have one or several (also non-zero) backend ids, channels up to 101 participants and duplicate peer entries.",
@@ -54,11 +54,11 @@ CHECKS = {
          "Trusted: the reference bookkeeping of the harness; histories are generated (every removal point within them is checked).",
          "DESIGN.md §5 C11"),
  "C18": ("exploration", "runtime monitoring: recorded relay histories checked against an exact sequential model, for linearizability (porcupine, nondeterministic model) and by exactly-once/conservation invariants under stress with the race detector",
-         "Recording consumers with unique envelope ids observe every hand-over at the relay's boundary; single-threaded histories must match the reference model step by step, short concurrent histories must be linearizable, long multi-producer histories must satisfy no-wrong-recipient / at-most-once / conservation / interval bounds at quiescence, and the race detector must stay silent in relay, cache and receiver code.",
+         "Recording consumers with unique envelope ids observe every hand-over at the relay's boundary; single-threaded histories must match the reference model step by step, short concurrent histories must be linearizable, long multi-producer histories must satisfy no-wrong-recipient / at-most-once / conservation / interval bounds at quiescence, the library's wire.Receiver read with short-lived contexts under concurrent puts must return every envelope exactly once, and the race detector must stay silent in relay, cache and receiver code.",
          "Trusted: the relay reference model (appendix A); quiescence by goroutine count in single-history child processes; porcupine v1.3.0. Reach is limited to the interleavings the scheduler and injected yields produced.",
          "DESIGN.md §5 C18, appendix A"),
  "C20": ("fault_enumeration", "runtime monitoring with fault injection: scripted per-ledger adjudicators/funders whose failures and completion order the harness controls, call logs on a logical clock",
-         "For generated asset lists every subset of registered ledgers, every failing subset and every completion order (<= 4 ledgers; sampled above) of Register/Progress/Withdraw/Fund (incl. every egoistic index) is executed; the per-ledger call log must show each distinct ledger of the assets exactly once on success (at most once on failure) and no other, the result must be an error iff a ledger is unregistered or a sub-call failed, and the egoistic ledger must be funded only after all others succeeded.",
+         "For generated asset lists every subset of registered ledgers, every failing subset and every completion order (<= 4 ledgers; sampled above) of Register/Progress/Withdraw/Fund (incl. every egoistic index) is executed; the per-ledger call log must show each distinct ledger of the assets exactly once on success (at most once on failure) and no other, the result must be an error iff a ledger is unregistered or a sub-call failed, and the egoistic ledger must be funded only after all others succeeded. Asset lists may contain an asset that names no ledger: such a request has to fail.",
          "Trusted: the scripted ledgers; completion order is controlled by releasing blocked sub-calls at harness-detected stable points (goroutine count), so no wall-clock verdicts.",
          "DESIGN.md §5 C20"),
  "C03": ("exploration", "runtime monitoring: generated life-cycle scenarios of two real clients on a strict reference ledger with a logical clock; conservation/payout oracle over ledger balances and recorded Enabled streams",
@@ -74,7 +74,7 @@ CHECKS = {
          "Trusted: recording persister ordering (one shared counter); decisions are fed to the handler in FIFO order per (receiver, channel). Runs with timeouts keep only the fully-signed invariant, as the statement says.",
          "DESIGN.md §5 C06"),
  "C08": ("exploration", "runtime monitoring: real clients opening ledger/sub/virtual channels under bus noise with both sides' results compared; mutated proposals injected on the bus with a recording proposal handler and a barrier; child processes attribute crashes",
-         "Positives compare ID, participant order, nonce, app, duration, flags and the fully signed version-0 state of both returned channels with the proposal, and nonce-share differential pairs must change the ID; an accepted opening that fails although every message was delivered and nothing moved for two thirds of the wait is reported as stalled (the bus adds send lag so that send-then-prepare windows open). Negatives deliver every single-condition mutation of well-formed proposals (32 mutators over the three proposal kinds; objects and both serializers) to a client with matching parents and check, after a barrier, that the handler was never invoked and no channel created; unmutated controls must reach the handler.",
+         "Positives compare ID, participant order, nonce, app, duration, flags and the fully signed version-0 state of both returned channels with the proposal, and nonce-share differential pairs must change the ID; in openings where one side's version-0 signature cannot be sent (bus send fault) a party that reports the channel as opened, or deposits, needs a peer holding the same fully signed state; an accepted opening that fails although every message was delivered and nothing moved for two thirds of the wait is reported as stalled (the bus adds send lag so that send-then-prepare windows open). Negatives deliver every single-condition mutation of well-formed proposals (37 mutators over the three proposal kinds; objects and both serializers; parties with one or several wire addresses) to a client with matching parents and check, after a barrier, that the handler was never invoked and no channel created; unmutated controls must reach the handler.",
          "Trusted: the barrier (a later valid proposal from the same sender answered + bus drained + no handler in flight); only natively encodable proposals are delivered.",
          "DESIGN.md §5 C08"),
  "C07": ("exploration", "runtime monitoring with an adversary holding a valid key: crafted and rewritten updates delivered to a real accept-everything client; an acceptability predicate evaluated inside the client's persister callback for its own signature",
